@@ -1473,6 +1473,10 @@ class RTCSctpTransport(AsyncIOEventEmitter):
         """
         Build and send a selective acknowledgement (SACK) chunk.
         """
+        # the SACK has to fit into a single packet, whatever the peer sent: limit
+        # the number of gap ack blocks and duplicate TSNs it reports
+        max_entries = USERDATA_MAX_LENGTH // 4
+
         gaps: list[list[int]] = []
         gap_next = None
         for tsn in self._sorted_misordered():
@@ -1482,6 +1486,8 @@ class RTCSctpTransport(AsyncIOEventEmitter):
                 break
             if tsn == gap_next:
                 gaps[-1][1] = pos
+            elif len(gaps) == max_entries:
+                break
             else:
                 gaps.append([pos, pos])
             gap_next = tsn_plus_one(tsn)
@@ -1489,7 +1495,7 @@ class RTCSctpTransport(AsyncIOEventEmitter):
         sack = SackChunk()
         sack.cumulative_tsn = self._last_received_tsn
         sack.advertised_rwnd = max(0, self._advertised_rwnd)
-        sack.duplicates = self._sack_duplicates[:]
+        sack.duplicates = self._sack_duplicates[: max_entries - len(gaps)]
         sack.gaps = [tuple(x) for x in gaps]
 
         await self._send_chunk(sack)
